@@ -1,11 +1,97 @@
-(** C05 (stage A): the loader arms translated from dr/loader.rs on this run
-    resolve and translate completely; theorems over the interpreter are being
-    added in Proofs/LoaderFacts.v. *)
-From RV Require Import Model.Base Model.Spirv Model.Grammar Model.Reflect Model.Loader.
-From RV Require Import Gen.SpirvData Gen.LoaderData Inst.Linked.
+(** C05 - the loader accepts exactly well-bracketed function/block structure.
+    Statements only; every proof is [exact] of a lemma of Inst/C05_inst.v /
+    Proofs/LoaderFacts.v.  [real_load] is the loader interpreter running the
+    arms translated from dr/loader.rs on this run; the theorems hold for EVERY
+    instruction sequence over the declared opcodes (no length bound). *)
+From RV Require Import Model.Base Model.Spirv Model.Grammar Model.Reflect Model.Module Model.Inst Model.Parser Model.Loader.
+From RV Require Import Spec.Layout Spec.LayoutClass Proofs.LoaderFacts.
+From RV Require Import Gen.SpirvData Gen.ReflectData Gen.LoaderData Inst.Linked Inst.C05_inst.
 
 Theorem C05_loader_arms_link :
   link_larms op_enum loader_arms_raw = Some loader_arms /\ loader_translation_failures = [].
 Proof. exact (conj loader_arms_link loader_translated_completely). Qed.
 
+(** the translated arms carry, for every declared opcode and both function
+    states, exactly the checks and the effect the logical layout prescribes *)
+Theorem C05_arms_agree_with_layout :
+  class_ok op_enum preds loader_arms class_of opcodes = true /\ loader_finalize_checks = spec_fin.
+Proof. exact (conj arms_agree_with_layout finalize_as_specified). Qed.
+
+Theorem C05_loader_is_the_layout_spec :
+  forall is, wellop is -> real_load is = spec_load (tagged is).
+Proof. exact real_load_is_spec. Qed.
+
+(** Loading succeeds iff functions and blocks are properly bracketed: [WB] is
+    the inductive grammar of Spec/Layout.v *)
+Theorem C05_accepts_iff_well_bracketed :
+  forall is, wellop is -> ((exists s, real_load is = LCont s) <-> WB (toks is)).
+Proof. exact real_accepts_iff_WB. Qed.
+
+(** otherwise the structural error of the FIRST offending instruction (or the
+    unclosed block / function at the end) is returned - and nothing else *)
+Theorem C05_error_is_first_offence :
+  forall is e, wellop is -> (real_load is = LErr e <-> first_error (toks is) = Some e).
+Proof. exact real_error_iff_first. Qed.
+
+Theorem C05_never_panics : forall is, wellop is -> real_load is <> LPanic.
+Proof. exact real_no_panic. Qed.
+
+(** the bracket automaton accepts exactly the grammar (independent of the loader) *)
+Theorem C05_automaton_iff_grammar : forall ts, accepted ts <-> WB ts.
+Proof. exact load_iff_WB. Qed.
+
+(** on success: every function owns its defining and ending instruction, every
+    block owns its label and ends with a terminator that occurs nowhere else in it *)
+Theorem C05_shape_on_success :
+  forall is s, wellop is -> real_load is = LCont s ->
+  (forall f, In f (m_functions inst (l_module s)) ->
+     f_def inst f <> None /\ f_end inst f <> None /\
+     forall b, In b (f_blocks inst f) ->
+       b_label inst b <> None /\
+       exists pre last, b_insts inst b = pre ++ [last] /\
+                        class_of (i_opcode last) = TTerminator /\
+                        (forall x, In x pre -> class_of (i_opcode x) <> TTerminator)) /\
+  l_function s = None /\ l_block s = None.
+Proof. exact real_shape. Qed.
+
+(** every module-level instruction is stored in the section the layout assigns *)
+Theorem C05_sections_exact :
+  forall is s sec, wellop is -> sec <> 3 -> real_load is = LCont s ->
+  section_insts (l_module s) sec = placed (false, false) sec (tagged is).
+Proof. exact real_placement. Qed.
+
+Theorem C05_module_level_in_its_section :
+  forall is s sec i, wellop is -> sec <> 3 -> real_load is = LCont s ->
+  In i is -> class_of (i_opcode i) = TModule sec -> In i (section_insts (l_module s) sec).
+Proof. exact real_placement_module. Qed.
+
+(** variables and undefs are module-level exactly when no function is open *)
+Theorem C05_variable_global_iff_no_function_open :
+  forall pre i post s,
+  wellop (pre ++ i :: post) -> class_of (i_opcode i) = TVarUndef ->
+  NoDup (pre ++ i :: post) ->
+  real_load (pre ++ i :: post) = LCont s ->
+  exists s_pre, spec_feed linit (tagged pre) = LCont s_pre /\
+    (In i (section_insts (l_module s) 10) <-> l_function s_pre = None).
+Proof. exact real_placement_varundef. Qed.
+
+(** non-vacuity *)
+Example C05_nonvacuous :
+  length opcodes = 787%nat /\
+  class_of 17 = TModule 0 /\ class_of 14 = TMemoryModel /\ class_of 8 = TLine /\ class_of 71 = TModule 9 /\
+  class_of 21 = TModule 10 /\ class_of 59 = TVarUndef /\ class_of 54 = TFunction /\ class_of 56 = TFunctionEnd /\
+  class_of 55 = TParameter /\ class_of 248 = TLabel /\ class_of 253 = TTerminator /\ class_of 128 = TBlockInst.
+Proof. exact (conj (eq_refl : length opcodes = 787%nat) class_examples). Qed.
+
 Print Assumptions C05_loader_arms_link.
+Print Assumptions C05_arms_agree_with_layout.
+Print Assumptions C05_loader_is_the_layout_spec.
+Print Assumptions C05_accepts_iff_well_bracketed.
+Print Assumptions C05_error_is_first_offence.
+Print Assumptions C05_never_panics.
+Print Assumptions C05_automaton_iff_grammar.
+Print Assumptions C05_shape_on_success.
+Print Assumptions C05_sections_exact.
+Print Assumptions C05_module_level_in_its_section.
+Print Assumptions C05_variable_global_iff_no_function_open.
+Print Assumptions C05_nonvacuous.
